@@ -244,5 +244,12 @@ def r5_no_inplace_in_conversions(rep, ctx):
         for x in own_nodes(fn.node):
             if isinstance(x, ast.AugAssign) and isinstance(x.target, ast.Name) and x.target.id in fn.params:
                 rep.bad("C13.R5", "%s:in-place:%s" % (q.split(".", 2)[-1], x.target.id), "`%s` in %s updates its argument in place: with an ndarray the operand held by the caller (a stored Array value) is rescaled as a side effect of a conversion or an operation" % (norm(ast.unparse(x)), q.split(".", 2)[-1]), node=x, fn=fn)
+    # the operators handed to the shared operation routines are not the in-place variants of the operator module
+    for q, fn in sorted(m.funcs.items()):
+        if fn.cls != "UnitDatabase" and fn.cls not in ("Scalar", "Array", "FixedArray", "FractionScalar"):
+            continue
+        for x in own_nodes(fn.node):
+            if isinstance(x, ast.Attribute) and isinstance(x.value, ast.Name) and x.value.id in ("operator", "_operator") and x.attr.startswith("i") and x.attr[1:] in ("add", "sub", "mul", "truediv", "floordiv", "mod", "pow", "concat"):
+                rep.bad("C13.R5", "%s:in-place-operator:%s" % (q.split(".", 2)[-1], x.attr), "%s uses operator.%s: on an ndarray operand it computes the result in place, overwriting the left operand's stored values" % (q.split(".", 2)[-1], x.attr), node=x, fn=fn)
     rep.ok("C13.R5", "conversion-functions:no-in-place", "%d conversion closures / routes examined: no augmented assignment to a parameter" % n)
     rep.floor("C13.R5", "conversion functions examined", n, 4)
